@@ -46,7 +46,16 @@ def _reload():
     return hc, hp
 
 
-def build_accessory(driver, nchars=6):
+NSTR = 6  # string characteristics 0..5; index 6 is the button
+
+
+def text(rng, n):
+    """n characters, sometimes with multi-byte UTF-8 ones"""
+    pool = rng.choice(["abcxyz", "abcxyz", "aü", "厨房k", "é€𝄞z"])
+    return "".join(rng.choice(pool) for _ in range(n))
+
+
+def build_accessory(driver, nchars=NSTR):
     from pyhap.accessory import Accessory
     from pyhap.characteristic import Characteristic
     from pyhap.service import Service
@@ -67,6 +76,13 @@ def build_accessory(driver, nchars=6):
         )
         svc.add_characteristic(ch)
         chars.append(ch)
+    button = Characteristic(
+        "Btn",
+        UUID("00000126-0000-1000-8000-0026BB765291"),  # Button Event: flushed without the coalescing window
+        {"Format": "uint8", "Permissions": ["pr", "ev"], "minValue": 0, "maxValue": 255},
+    )
+    svc.add_characteristic(button)
+    chars.append(button)
     acc.add_service(svc)
     driver.add_accessory(acc)
     return acc, chars
@@ -107,7 +123,7 @@ def gen_script(rng, quick):
         if k < 0.14:
             ops.append(["get_acc"])
         elif k < 0.30:
-            ops.append(["get", sorted(rng.sample(range(6), rng.randrange(1, 6)))])
+            ops.append(["get", sorted(rng.sample(range(7), rng.randrange(1, 6)))])
         elif k < 0.42:
             ops.append(["put", rng.randrange(6), rng.choice([0, 1, 50, 200, 255, 256])])
         elif k < 0.56:
@@ -116,8 +132,12 @@ def gen_script(rng, quick):
             ops.append(["appset", rng.randrange(6), rng.choice([1, 30, 200, 250, 256])])
         elif k < 0.88:
             ops.append(["advance", rng.choice([0.125, 0.25, 0.5, 1.0])])
-        elif k < 0.96:
-            ops.append(["snapshot", rng.choice([1, 900, 940, 1024, 2000, 3000]), rng.choice([0, 0.25, 1.0])])
+        elif k < 0.94:
+            ops.append(["snapshot", rng.choice([1, 900, 940, 1024, 2000, 3000]), rng.choice([0, 0.25, 1.0]), 0])
+        elif k < 0.97:
+            # a large delayed response while button events arrive at arbitrary loop-iteration boundaries
+            ops.append(["sub", [6]])
+            ops.append(["snapshot", rng.choice([66000, 70000, 140000] if quick else [66000, 70000, 140000, 300000]), rng.choice([0, 0.25]), rng.choice([2, 5])])
         else:
             ops.append(["reverify"])
     return ops
@@ -204,13 +224,13 @@ def run_script(ctx: Ctx, hc, hp, ops, mode, seed):
                             break
                         chars[3].set_value("x" * (cur - delta), should_notify=False)
                 elif k == "put":
-                    body = json.dumps({"characteristics": [{"aid": 1, "iid": iid[op[1]], "value": "p" * op[2]}]}).encode()
+                    body = json.dumps({"characteristics": [{"aid": 1, "iid": iid[op[1]], "value": text(rng, op[2])}]}).encode()
                     send(b"PUT /characteristics HTTP/1.1\r\nHost: a\r\nContent-Length: %d\r\n\r\n" % len(body) + body, "put")
                 elif k == "sub":
                     body = json.dumps({"characteristics": [{"aid": 1, "iid": iid[i], "ev": True} for i in op[1]]}).encode()
                     send(b"PUT /characteristics HTTP/1.1\r\nHost: a\r\nContent-Length: %d\r\n\r\n" % len(body) + body, "put")
                 elif k == "appset":
-                    chars[op[1]].set_value(chr(97 + rng.randrange(26)) * op[2])
+                    chars[op[1]].set_value(text(rng, op[2]))
                 elif k == "advance":
                     rig.loop.advance(op[1])
                 elif k == "snapshot":
@@ -219,8 +239,19 @@ def run_script(ctx: Ctx, hc, hp, ops, mode, seed):
                     if op[2] > 0 and rng.random() < 0.5:
                         # an event may be produced while the delayed response is pending
                         chars[0].set_value("w" * rng.choice([3, 250]))
+                    inject = [op[3] if len(op) > 3 else 0]
+
+                    def hook(_i=inject):
+                        # application activity between two loop iterations (as call_soon_threadsafe
+                        # from a worker thread would produce): a button press -> immediate event
+                        if _i[0] > 0 and rng.random() < 0.6:
+                            _i[0] -= 1
+                            chars[6].set_value(rng.randrange(1, 255))
+
+                    rig.loop.hook = hook if inject[0] else None
                     # h11 will not process a pipelined request before the response is out: wait for it
                     rig.loop.advance(op[2] + 0.125)
+                    rig.loop.hook = None
                 elif k == "reverify":
                     verify()
                 rig.loop.settle()
@@ -315,7 +346,8 @@ def judge(ctx: Ctx, obs, ops, mode, seed):
         elif kind == "put":
             ok = m[1] in (204, 207)
         elif kind.startswith("snapshot:"):
-            ok = m[1] == 200 and ct == b"image/jpeg" and len(m[3]) == int(kind.split(":")[1])
+            n_ = int(kind.split(":")[1])
+            ok = m[1] == 200 and ct == b"image/jpeg" and m[3] == bytes((i * 7 + 1) % 256 for i in range(n_))
         if not ok:
             ctx.fail("C05:response-out-of-order", f"response to {kind} is {m[1]} {ct!r} ({len(m[3])} bytes)", rep)
             break
@@ -380,10 +412,15 @@ def run(ctx: Ctx):
         scripts.append((size_targeting_script(rng, target), "mock"))
         scripts.append((size_targeting_script(rng, target), "real"))
     scripts.append(([["sub", [0, 1, 2, 3, 4]]] + [["appset", i, 256] for i in range(5)] + [["advance", 1.0]], "mock"))
-    scripts.append(([["sub", [0]], ["snapshot", 2048, 1.0], ["appset", 0, 10], ["advance", 1.0], ["get_acc"]], "real"))
+    scripts.append(([["sub", [0]], ["snapshot", 2048, 1.0, 0], ["appset", 0, 10], ["advance", 1.0], ["get_acc"]], "real"))
     scripts.append(([["reverify"], ["get_acc"], ["reverify"], ["get", [0, 1]]], "mock"))
+    scripts.append(([["sub", [6]], ["snapshot", 70000, 0.25, 5], ["get", [0]]], "real"))
+    scripts.append(([["sub", [0, 6]], ["appset", 0, 40], ["snapshot", 140000, 0, 5], ["get_acc"]], "real"))
     for _ in range(ctx.n(200, 3000)):
-        scripts.append((gen_script(rng, ctx.quick), rng.choice(["mock", "real"])))
+        ops_ = gen_script(rng, ctx.quick)
+        big = any(o[0] == "snapshot" and o[1] > 60000 for o in ops_)
+        # the transparent mock cipher is pure Python (slow on big payloads): big responses use real ChaCha
+        scripts.append((ops_, "real" if big else rng.choice(["mock", "real"])))
     lines, impls, idx = [], [], []
     for i, (ops, mode) in enumerate(scripts):
         seed = ctx.seed * 100003 + i
